@@ -303,16 +303,20 @@ Qed.
 Lemma dot_map_map {A} (f g : A -> R) l : dot (map f l) (map g l) = nsum (map (fun a => f a * g a) l).
 Proof. induction l as [|a l IH]; [reflexivity|]. cbn [map]. rewrite dot_cons, nsum_cons, IH. reflexivity. Qed.
 
+Ltac rnum := try unfold nadd in *; try unfold nmul in *; try unfold nsub in *; try unfold ndiv in *;
+             try unfold nzero in *; try unfold none_ in *; cbn [NumR] in *.
+
 Lemma delta_sum (a : nat -> R) n k : (k < n)%nat ->
   nsum (map (fun j => a j * (if Nat.eqb j k then 1 else 0)) (seq 0 n)) = a k.
 Proof.
   induction n as [|n IH]; intros Hk; [lia|].
-  rewrite seq_S, map_app, (nsum_app RthR). cbn [map Nat.add]. rewrite nsum_cons. unfold nadd, nzero; cbn [NumR]. cbn [nsum fold_right].
+  rewrite seq_S, map_app, (nsum_app RthR). cbn [map Nat.add]. cbn [nsum fold_right]. fold (@nsum R _).
   destruct (Nat.eqb_spec n k) as [->|Hne].
-  - replace (nsum (map _ (seq 0 k))) with 0; [unfold nzero; cbn [NumR]; lra|].
-    symmetry. rewrite <- (nsum_map_zero RthR (seq 0 k)). apply nsum_map_ext. intros j Hj. apply in_seq in Hj.
-    destruct (Nat.eqb_spec j k); [lia|]. unfold nzero; cbn [NumR]. lra.
-  - rewrite IH by lia. unfold nzero; cbn [NumR]. lra.
+  - assert (Z0 : nsum (map (fun j => a j * (if Nat.eqb j k then 1 else 0)) (seq 0 k)) = 0).
+    { transitivity (nsum (map (fun _ : nat => (nzero : R)) (seq 0 k))); [|apply (nsum_map_zero RthR)].
+      apply nsum_map_ext. intros j Hj. apply in_seq in Hj. destruct (Nat.eqb_spec j k); [lia|]. rnum. lra. }
+    rewrite Z0. rnum. lra.
+  - rewrite IH by lia. rnum. lra.
 Qed.
 
 (* the nodal vector "1 in direction k at every node" of an element with en nodes *)
@@ -353,7 +357,8 @@ Section Mass.
   Lemma Nm_shape n : Forall (fun r => length r = nn) (Nm n) /\ length (Nm n) = ndof.
   Proof.
     unfold Nm. pose proof (Nmat_shape ndof (shape_fun d h (gauss_pos s3 h n))) as [A B].
-    unfold shape_fun in A at 2. rewrite map_length, Hd in A. split; assumption.
+    assert (Hl : length (shape_fun d h (gauss_pos s3 h n)) = en) by (unfold shape_fun; rewrite map_length; exact Hd).
+    rewrite Hl in A. split; assumption.
   Qed.
 
   Lemma mass_term_shape n : mshape nn nn (mmul nn (mscale c (mtrans nn (Nm n))) (Nm n)).
@@ -412,9 +417,167 @@ Section Mass.
     - intros n Hn. unfold Nm.
       assert (Hl : length (shape_fun d h (gauss_pos s3 h n)) = en) by (unfold shape_fun; rewrite map_length; exact Hd).
       rewrite <- Hl, Nmat_dir by exact Hk. rewrite (Hpou n Hn).
-      rewrite dot_map_map.
-      rewrite (nsum_map_ext _ (fun j => (if Nat.eqb j k then 1 else 0) * (if Nat.eqb j k then 1 else 0))) by reflexivity.
-      rewrite (delta_sum (fun j => if Nat.eqb j k then 1 else 0) ndof k Hk). rewrite Nat.eqb_refl.
-      unfold nmul; cbn [NumR]. lra.
+      rewrite dot_map_map. unfold nmul; cbn [NumR].
+      rewrite (delta_sum (fun j => if Nat.eqb j k then 1 else 0) ndof k Hk). rewrite Nat.eqb_refl. lra.
   Qed.
 End Mass.
+
+Lemma mass2_total s3 hx hy hz mp ndof k : (k < ndof)%nat -> hx <> 0 -> hy <> 0 ->
+  quad (mass_element s3 2 [hx; hy; hz] mp ndof) (dirvec ndof 4 k) = mp * (hx * hy * hz).
+Proof.
+  intros Hk Hx Hy. change 4%nat with (2 ^ 2)%nat. rewrite (mass_total s3 2 [hx; hy; hz] mp ndof eq_refl k Hk).
+  - unfold gauss_w, thick_prop, nprod, two. cbn. rnum. field.
+  - intros n _. unfold gauss_pos; cbn [map seq]. apply pou2; assumption.
+Qed.
+
+Lemma mass3_total s3 hx hy hz mp ndof k : (k < ndof)%nat -> hx <> 0 -> hy <> 0 -> hz <> 0 ->
+  quad (mass_element s3 3 [hx; hy; hz] mp ndof) (dirvec ndof 8 k) = mp * (hx * hy * hz).
+Proof.
+  intros Hk Hx Hy Hz. change 8%nat with (2 ^ 3)%nat. rewrite (mass_total s3 3 [hx; hy; hz] mp ndof eq_refl k Hk).
+  - unfold gauss_w, thick_prop, nprod, two. cbn. rnum. field.
+  - intros n _. unfold gauss_pos; cbn [map seq]. apply pou3; assumption.
+Qed.
+
+Lemma gauss_coef2_nonneg hx hy hz mp : 0 <= hx -> 0 <= hy -> 0 <= hz -> 0 <= mp ->
+  0 <= (gauss_w 2 [hx; hy; hz] * thick_prop 2 [hx; hy; hz] mp)%num.
+Proof.
+  intros. unfold gauss_w, thick_prop, nprod, two. cbn. rnum. unfold Rdiv.
+  assert (0 <= hx * / (1 + 1)) by nra. assert (0 <= hy * / (1 + 1)) by nra.
+  apply Rmult_le_pos; [apply Rmult_le_pos; [assumption|nra] | nra].
+Qed.
+
+Lemma gauss_coef3_nonneg hx hy hz mp : 0 <= hx -> 0 <= hy -> 0 <= hz -> 0 <= mp ->
+  0 <= (gauss_w 3 [hx; hy; hz] * thick_prop 3 [hx; hy; hz] mp)%num.
+Proof.
+  intros. unfold gauss_w, thick_prop, nprod, two. cbn. rnum. unfold Rdiv.
+  assert (0 <= hx * / (1 + 1)) by nra. assert (0 <= hy * / (1 + 1)) by nra. assert (0 <= hz * / (1 + 1)) by nra.
+  apply Rmult_le_pos; [|assumption]. apply Rmult_le_pos; [assumption|]. apply Rmult_le_pos; [assumption|nra].
+Qed.
+
+(* ================================================================== Poisson matrix *)
+Section Poisson.
+  Variables (s3 : R) (d : nat) (h : list R) (mp : R).
+  Let en := (2 ^ d)%nat.
+  Let c := (gauss_w d h * thick_prop d h mp)%num.
+  Let Bn (n : Z * Z * Z) := shape_der d h (gauss_pos s3 h n).
+  Hypothesis Hd : length (node_numbering (Z.of_nat d)) = en.
+
+  Lemma Bn_shape n : Forall (fun r => length r = en) (Bn n).
+  Proof.
+    unfold Bn, shape_der. apply Forall_forall. intros r Hr. apply in_map_iff in Hr as (i & <- & _).
+    rewrite map_length. exact Hd.
+  Qed.
+
+  Lemma poisson_term_shape n : mshape en en (mmul en (mscale c (mtrans en (Bn n))) (Bn n)).
+  Proof. apply mmul_shape. unfold mscale, mtrans. rewrite !map_length, seq_length. reflexivity. Qed.
+
+  Lemma poisson_shape : mshape en en (poisson_element s3 d h mp).
+  Proof.
+    unfold poisson_element. apply (fold_madd_shape en en (fun n => mmul en (mscale c (mtrans en (Bn n))) (Bn n))).
+    - apply mzero_shape.
+    - intros n _. apply poisson_term_shape.
+  Qed.
+
+  Lemma poisson_bil u v :
+    bil (poisson_element s3 d h mp) u v =
+    nsum (map (fun n => c * dot (mvmul (Bn n) u) (mvmul (Bn n) v)) (node_numbering (Z.of_nat d))).
+  Proof.
+    unfold poisson_element.
+    rewrite (fold_madd_bil RthR en en (fun n => mmul en (mscale c (mtrans en (Bn n))) (Bn n))).
+    - rewrite (bil_mzero RthR). unfold nadd, nzero; cbn [NumR]. rewrite Rplus_0_l.
+      apply nsum_map_ext. intros n _. apply (bil_BtB RthR). apply Bn_shape.
+    - apply mzero_shape.
+    - intros n _. apply poisson_term_shape.
+  Qed.
+
+  Lemma poisson_sym : msym (poisson_element s3 d h mp).
+  Proof.
+    unfold poisson_element.
+    apply (fold_madd_sym RthR en (fun n => mmul en (mscale c (mtrans en (Bn n))) (Bn n))).
+    - apply mzero_shape.
+    - intros n _. apply poisson_term_shape.
+    - intros i j. change (ment (mzero en en) i j = ment (mzero en en) j i). rewrite !ment_mzero. reflexivity.
+    - intros n _ i j.
+      change (ment (mmul en (mscale c (mtrans en (Bn n))) (Bn n)) i j = ment (mmul en (mscale c (mtrans en (Bn n))) (Bn n)) j i).
+      destruct (poisson_term_shape n) as [L1 L2].
+      destruct (Nat.lt_ge_cases i en) as [Hi|Hi]; [destruct (Nat.lt_ge_cases j en) as [Hj|Hj]|].
+      + rewrite !(ment_BtB RthR en) by assumption. rewrite (dot_comm RthR). reflexivity.
+      + rewrite (ment_overflow_col en) by assumption. rewrite ment_overflow_row by lia. reflexivity.
+      + rewrite ment_overflow_row by lia. rewrite (ment_overflow_col en) by assumption. reflexivity.
+  Qed.
+
+  Lemma poisson_psd v : 0 <= c -> 0 <= quad (poisson_element s3 d h mp) v.
+  Proof.
+    intros Hc. unfold quad. rewrite poisson_bil. apply nsum_nonneg. intros n _.
+    apply Rmult_le_pos; [exact Hc | apply dot_self_nonneg].
+  Qed.
+
+  Lemma poisson_null r :
+    (forall n, In n (node_numbering (Z.of_nat d)) -> allz (mvmul (Bn n) r)) ->
+    allz (mvmul (poisson_element s3 d h mp) r).
+  Proof.
+    intros Hr. unfold poisson_element.
+    apply (fold_madd_null RthR en en (fun n => mmul en (mscale c (mtrans en (Bn n))) (Bn n))).
+    - apply mzero_shape.
+    - intros n _. apply poisson_term_shape.
+    - rewrite (mvmul_mzero RthR). apply allz_vzero.
+    - intros n Hn. rewrite (mvmul_mmul RthR en) by apply Bn_shape.
+      apply (mvmul_allz RthR). apply Hr; exact Hn.
+  Qed.
+
+  (* energy of a field whose gradient is reproduced as gvec at every Gauss point *)
+  Lemma poisson_energy u gvec :
+    (forall n, In n (node_numbering (Z.of_nat d)) -> mvmul (Bn n) u = gvec) ->
+    quad (poisson_element s3 d h mp) u = INR en * c * dot gvec gvec.
+  Proof.
+    intros Hg. unfold quad. rewrite poisson_bil.
+    rewrite (nsum_map_ext _ (fun _ => c * dot gvec gvec)) by (intros n Hn; rewrite (Hg n Hn); reflexivity).
+    rewrite <- Hd. generalize (node_numbering (Z.of_nat d)). intros l.
+    induction l as [|a l IH]; [cbn; lra|]. cbn [map length]. rewrite nsum_cons, IH, S_INR. rnum. lra.
+  Qed.
+End Poisson.
+
+(* the linear nodal field  c0 + g . x  on one element (local coordinates, any offset c0) *)
+Definition linfield2 (h : list R) (c0 gx gy : R) : list R :=
+  map (fun n => match nodepos h n with [x; y; _] => c0 + gx * x + gy * y | _ => 0 end) (node_numbering 2).
+Definition linfield3 (h : list R) (c0 gx gy gz : R) : list R :=
+  map (fun n => match nodepos h n with [x; y; z] => c0 + gx * x + gy * y + gz * z | _ => 0 end) (node_numbering 3).
+
+Lemma grad_lin2 hx hy hz px py pz c0 gx gy : hx <> 0 -> hy <> 0 ->
+  mvmul (shape_der 2 [hx; hy; hz] [px; py; pz]) (linfield2 [hx; hy; hz] c0 gx gy) = [gx; gy].
+Proof. intros. unfold linfield2. elem_unfold. list_eq ltac:(field; auto). Qed.
+
+Lemma grad_lin3 hx hy hz px py pz c0 gx gy gz : hx <> 0 -> hy <> 0 -> hz <> 0 ->
+  mvmul (shape_der 3 [hx; hy; hz] [px; py; pz]) (linfield3 [hx; hy; hz] c0 gx gy gz) = [gx; gy; gz].
+Proof. intros. unfold linfield3. elem_unfold. list_eq ltac:(field; auto). Qed.
+
+Lemma poisson2_constants s3 hx hy hz mp c0 : hx <> 0 -> hy <> 0 ->
+  allz (mvmul (poisson_element s3 2 [hx; hy; hz] mp) (linfield2 [hx; hy; hz] c0 0 0)).
+Proof.
+  intros Hx Hy. apply (poisson_null s3 2 [hx; hy; hz] mp eq_refl). intros n _.
+  unfold gauss_pos; cbn [map seq]. rewrite grad_lin2 by assumption. repeat constructor.
+Qed.
+
+Lemma poisson3_constants s3 hx hy hz mp c0 : hx <> 0 -> hy <> 0 -> hz <> 0 ->
+  allz (mvmul (poisson_element s3 3 [hx; hy; hz] mp) (linfield3 [hx; hy; hz] c0 0 0 0)).
+Proof.
+  intros Hx Hy Hz. apply (poisson_null s3 3 [hx; hy; hz] mp eq_refl). intros n _.
+  unfold gauss_pos; cbn [map seq]. rewrite grad_lin3 by assumption. repeat constructor.
+Qed.
+
+Lemma poisson2_linear_energy s3 hx hy hz mp c0 gx gy : hx <> 0 -> hy <> 0 ->
+  quad (poisson_element s3 2 [hx; hy; hz] mp) (linfield2 [hx; hy; hz] c0 gx gy) = mp * (hx * hy * hz) * (gx * gx + gy * gy).
+Proof.
+  intros Hx Hy. rewrite (poisson_energy s3 2 [hx; hy; hz] mp eq_refl _ [gx; gy]).
+  - unfold gauss_w, thick_prop, nprod, two, dot, nsum. cbn. rnum. field.
+  - intros n _. unfold gauss_pos; cbn [map seq]. apply grad_lin2; assumption.
+Qed.
+
+Lemma poisson3_linear_energy s3 hx hy hz mp c0 gx gy gz : hx <> 0 -> hy <> 0 -> hz <> 0 ->
+  quad (poisson_element s3 3 [hx; hy; hz] mp) (linfield3 [hx; hy; hz] c0 gx gy gz)
+  = mp * (hx * hy * hz) * (gx * gx + gy * gy + gz * gz).
+Proof.
+  intros Hx Hy Hz. rewrite (poisson_energy s3 3 [hx; hy; hz] mp eq_refl _ [gx; gy; gz]).
+  - unfold gauss_w, thick_prop, nprod, two, dot, nsum. cbn. rnum. field.
+  - intros n _. unfold gauss_pos; cbn [map seq]. apply grad_lin3; assumption.
+Qed.
